@@ -1,13 +1,13 @@
-\* quick exhaustive configuration, scaled-down threshold (alignment effects inside squares of width <= 8)
+\* thorough exhaustive configuration, scaled-down threshold: up to 4 blobs, share versions free
 SPECIFICATION Spec
 CONSTANTS
   T = 2
-  MaxBlobs = 3
-  NSS = {2, 4, 6}
-  LENS = {1, 3, 5}
+  MaxBlobs = 4
+  NSS = {2, 4}
+  LENS = {1, 2, 3, 5, 9}
   VERS = {0, 1}
   COMPACTS = {0, 1, 2, 3}
-  QUERYNS = {2, 3, 4, 6, 7}
+  QUERYNS = {2, 3, 4, 5}
   VerTied = TRUE
   EmitCases = TRUE
 INVARIANTS
